@@ -4,6 +4,7 @@ package actor
 
 import (
 	"context"
+	"encoding/json"
 	"fmt"
 	"strings"
 	"sync"
@@ -87,6 +88,7 @@ type c42Case struct {
 	RetryMs       int     `json:"retry_ms"`   // producer controller tick
 	FeedMs        []int   `json:"feed_ms"`    // pause before message i is handed to the producer endpoint
 	ConfirmMs     []int   `json:"confirm_ms"` // processing time of message i at the consumer endpoint
+	AckMs         []int   `json:"ack_ms"`     // time the producer endpoint takes between Stored and StoredAck for message i (retention handoff)
 	Skip          []int   `json:"skip"`       // number of presentations of message i the consumer leaves unconfirmed
 	ConsumerFirst bool    `json:"consumer_first"`
 	Horizon       int     `json:"horizon"` // faults apply to the first Horizon messages of each direction
@@ -133,8 +135,9 @@ func c42Gen(t *rapid.T) c42Case {
 	c.RetryMs = rapid.IntRange(10, 30).Draw(t, "retry_ms")
 	feedMode := rapid.IntRange(0, 3).Draw(t, "feed_mode")
 	confMode := rapid.IntRange(0, 3).Draw(t, "confirm_mode")
+	ackMode := rapid.IntRange(0, 1).Draw(t, "ack_mode")
 	for i := 0; i < c.N; i++ {
-		f, d, s := 0, 0, 0
+		f, d, s, a := 0, 0, 0, 0
 		switch feedMode {
 		case 1:
 			f = rapid.IntRange(0, 3).Draw(t, "feed_ms")
@@ -150,7 +153,10 @@ func c42Gen(t *rapid.T) c42Case {
 		if rapid.IntRange(0, 7).Draw(t, "skip") == 0 {
 			s = rapid.IntRange(1, 2).Draw(t, "skip_n")
 		}
-		c.FeedMs, c.ConfirmMs, c.Skip = append(c.FeedMs, f), append(c.ConfirmMs, d), append(c.Skip, s)
+		if ackMode == 1 {
+			a = rapid.SampledFrom([]int{0, 0, 1, 5, 15, 30}).Draw(t, "ack_ms")
+		}
+		c.FeedMs, c.ConfirmMs, c.Skip, c.AckMs = append(c.FeedMs, f), append(c.ConfirmMs, d), append(c.Skip, s), append(c.AckMs, a)
 	}
 	c.ConsumerFirst = rapid.Bool().Draw(t, "consumer_first")
 	c.Horizon = rapid.IntRange(30, 120).Draw(t, "horizon")
@@ -225,6 +231,7 @@ type c42Run struct {
 	released    int
 	outstanding [2]int // controller->endpoint messages not yet handled (0 producer endpoint, 1 consumer endpoint)
 	quiet       int    // fault-free controller messages since the last progress
+	backlogged  int    // fault-free controller messages not counted because a controller mailbox was backlogged
 	fedSeen     int
 	restarted   bool
 
@@ -237,6 +244,7 @@ type c42Run struct {
 	presCount   map[int64]int // presentations per seq, as received by the consumer endpoint
 	consConf    map[string]bool
 	storedSeq   map[string]int64
+	presSeq     map[string]int64 // seq under which message id was first presented
 	prodConf    map[string]int
 	prodConfN   int
 
@@ -268,9 +276,16 @@ func (r *c42Run) fail(fp, format string, args ...any) {
 
 func (r *c42Run) progress() { r.quiet = 0 }
 
-// quietStep counts one fault-free controller message (mu held).
-func (r *c42Run) quietStep() {
+// quietStep counts one fault-free controller message (mu held). Messages sent
+// while a controller mailbox is backlogged are not counted: on an overloaded
+// machine a controller that cannot keep up with its peer's ticks answers stale
+// registrations for ever, which is starvation, not a protocol stall.
+func (r *c42Run) quietStep(self, to *PID) {
 	if r.done || r.stalled {
+		return
+	}
+	if self.mailbox.Len() > 2 || to.mailbox.Len() > 2 {
+		r.backlogged++
 		return
 	}
 	h := r.c.Horizon
@@ -453,7 +468,7 @@ func (r *c42Run) tell(role int, ctrl any, self, to *PID, message any) bool {
 		r.logf("%s      released %s", side, c42Describe(h.msg))
 	}
 	if dec == c42Deliver {
-		r.quietStep()
+		r.quietStep(self, to)
 	}
 	r.mu.Unlock()
 
@@ -496,9 +511,12 @@ func (r *c42Run) onPresent(d *Delivery) {
 			r.fail(fp, "first presentation #%d is id=%s seq=%d, the production order requires id=%s", k, id, seq, r.ids[k])
 			return
 		}
-		stored, ok := r.storedSeq[id]
-		if !ok || stored != seq {
-			r.fail("delivery-seq-differs-from-stored-seq", "Delivery id=%s carries seq=%d, the producer was told Stored seq=%d (known=%v)", id, seq, stored, ok)
+		// Stored may not have been handled by the producer endpoint yet: a timeout
+		// Request makes the producer controller resend entries that are stored but
+		// still waiting for StoredAck. The two sequences are compared whenever both are known.
+		r.presSeq[id] = seq
+		if stored, ok := r.storedSeq[id]; ok && stored != seq {
+			r.fail("delivery-seq-differs-from-stored-seq", "Delivery id=%s carries seq=%d, the producer was told Stored seq=%d", id, seq, stored)
 			return
 		}
 		if r.c.Chunking && len(r.contents[k]) > 900 {
@@ -567,10 +585,16 @@ func (p *c42Producer) Receive(ctx *ReceiveContext) {
 			return
 		}
 		if len(p.pending) > 0 && r.ids[p.pending[0]] == msg.MessageID() {
+			if i := p.pending[0]; i < len(r.c.AckMs) && r.c.AckMs[i] > 0 {
+				time.Sleep(time.Duration(r.c.AckMs[i]) * time.Millisecond) // durably removing the item takes a while
+			}
 			p.pending = p.pending[1:] // retention handoff: the head is removed on Stored
 			r.mu.Lock()
 			r.storedSeq[msg.MessageID()] = msg.Seq()
 			r.logf("P    Stored(seq=%d,id=%s)", msg.Seq(), msg.MessageID())
+			if ps, ok := r.presSeq[msg.MessageID()]; ok && ps != msg.Seq() && !r.restarted {
+				r.fail("delivery-seq-differs-from-stored-seq", "Stored id=%s says seq=%d, the consumer was handed the message as Delivery seq=%d", msg.MessageID(), msg.Seq(), ps)
+			}
 			r.progress()
 			r.mu.Unlock()
 		}
@@ -714,7 +738,7 @@ func c42RunOnce(x *vfkit.X, c *c42Case, attempt int) (*c42Run, int) {
 	n := c42Counter.Add(1)
 	r := &c42Run{
 		c: c, prodName: fmt.Sprintf("c42-producer-%d", n), consName: fmt.Sprintf("c42-consumer-%d", n),
-		ctrlConf: map[int64]bool{}, presCount: map[int64]int{}, consConf: map[string]bool{}, storedSeq: map[string]int64{}, prodConf: map[string]int{},
+		ctrlConf: map[int64]bool{}, presCount: map[int64]int{}, consConf: map[string]bool{}, storedSeq: map[string]int64{}, presSeq: map[string]int64{}, prodConf: map[string]int{},
 		failCh: make(chan struct{}), stallCh: make(chan struct{}), doneCh: make(chan struct{}),
 	}
 	index := map[string]int{}
@@ -735,7 +759,9 @@ func c42RunOnce(x *vfkit.X, c *c42Case, attempt int) (*c42Run, int) {
 	copts := []ReliableConsumerOption{WithReliableFlowControlWindow(c.Window), WithReliableResendInterval(time.Duration(c.ResendMs) * time.Millisecond)}
 	var producer, consumer *PID
 	var err error
-	spawnP := func() { producer, err = c42Sys.Spawn(ctx, r.prodName, &c42Producer{r: r}, AsReliableProducer(r.consName, popts...)) }
+	spawnP := func() {
+		producer, err = c42Sys.Spawn(ctx, r.prodName, &c42Producer{r: r}, AsReliableProducer(r.consName, popts...))
+	}
 	spawnC := func() {
 		consumer, err = c42Sys.Spawn(ctx, r.consName, &c42Consumer{r: r, index: index}, AsReliableConsumer(r.prodName, copts...))
 	}
@@ -844,6 +870,12 @@ func c42Exec(x *vfkit.X, c c42Case) {
 		if outcome == c42Stalled {
 			strikes++
 			x.Class("stalled_execution")
+			// diagnostic only (process log): the tail of a stalled execution
+			cj, _ := json.Marshal(c)
+			fmt.Printf("C42-STALL attempt=%d case=%s\n", attempt, cj)
+			for _, l := range hist[max(0, len(hist)-150):] {
+				fmt.Println("   ", l)
+			}
 			continue
 		}
 		if outcome == c42Inconclusive {
